@@ -68,7 +68,9 @@ def shard_lib(idxs, defs):
     out.append('pub fn run(idx: usize, mode: &str, input: &[u8]) -> Option<String> {')
     out.append('    match idx {')
     for i in idxs:
-        if defs[i].utf8:
+        if defs[i].utf8 and not defs[i].has_lifetime():
+            out.append('        %d => Some(match std::str::from_utf8(input) { Ok(s) => if mode == "S" { zoo_rt::stack_probe_str::<d%d::T>(s, 4 << 20) } else { zoo_rt::lex_str::<d%d::T>(s, mode) }, Err(_) => "NOTUTF8".into() }),' % (i, i, i))
+        elif defs[i].utf8:
             out.append('        %d => Some(match std::str::from_utf8(input) { Ok(s) => zoo_rt::lex_str::<d%d::T>(s, mode), Err(_) => "NOTUTF8".into() }),' % (i, i))
         else:
             out.append('        %d => Some(zoo_rt::lex_bytes::<d%d::T>(input, mode)),' % (i, i))
